@@ -40,3 +40,42 @@ package cache
 //@   let armed = unbox(arg(SetTimer, 2), delayTask)
 //@   ensures [armed-at-1s] calls(SetTimer) == 1 && arg(SetTimer, 0) == timingWheel && arg(SetTimer, 3) == time.Second
 //@     | && typeis(arg(SetTimer, 2), delayTask) && armed.delay == time.Second && armed.task == task
+
+// Stored TTLs: the jittered expiry rounded UP to whole seconds (never down, so never below -5%; 0 would mean "no expiry").
+//@ func (node).setCacheWithNotFound
+//@   prop C06
+//@   opaque aroundDuration, SetExCtx
+//@   let d = ret(n.aroundDuration)
+//@   ensures [placeholder] calls(n.rds.SetExCtx) == 1 && arg(SetExCtx, 2) == key && arg(SetExCtx, 3) == "*" && result == ret(SetExCtx)
+//@   ensures [jitter-of-not-found-expiry] calls(n.aroundDuration, n.notFoundExpire) == 1
+//@   ensures [rounded-up] 0 <= d && d < 4000000000000000000 ==> real(arg(SetExCtx, 4)) >= real(d) / 1000000000.0 && real(arg(SetExCtx, 4)) < real(d) / 1000000000.0 + 1.0
+//@ func (node).SetWithExpireCtx
+//@   prop C06
+//@   opaque SetExCtx, Marshal
+//@   ensures [marshal-error] ret(Marshal, 1) != nil ==> result == ret(Marshal, 1) && calls(SetExCtx) == 0
+//@   ensures [rounded-up] ret(Marshal, 1) == nil && 0 <= expire && expire < 4000000000000000000 ==> calls(n.rds.SetExCtx) == 1 && arg(SetExCtx, 2) == key && real(arg(SetExCtx, 4)) >= real(expire) / 1000000000.0 && real(arg(SetExCtx, 4)) < real(expire) / 1000000000.0 + 1.0 && result == ret(SetExCtx)
+
+// A failed removal is handed to the background retry with exactly the keys that failed; a successful one is not.
+//@ func (node).DelCtx
+//@   prop C06
+//@   opaque DelCtx, asyncRetryDelCache, WithContext, Errorf, formatKeys
+//@   loop 1 iteration-ensures [cluster-each-key] calls(n.rds.DelCtx) == 1 && (ret(DelCtx, 1) != nil) == (calls(asyncRetryDelCache) == 1) && (calls(asyncRetryDelCache) == 1 ==> len(arg(asyncRetryDelCache, 1)) == 1 && arg(asyncRetryDelCache, 1)[0] == at_head(keys[rangeindex + 1]))
+//@   loop 1 invariant -1 <= rangeindex && rangeindex <= len(keys)
+//@   ensures [no-keys] len(keys) == 0 ==> result == nil && calls(DelCtx) == 0
+//@   ensures [single-call-retry-on-failure] len(keys) > 0 && !(len(keys) > 1 && n.rds.Type == "cluster") ==> calls(n.rds.DelCtx) == 1 && arg(DelCtx, 2) == keys && (ret(DelCtx, 1) != nil) == (calls(asyncRetryDelCache) == 1) && (calls(asyncRetryDelCache) == 1 ==> arg(asyncRetryDelCache, 1) == keys)
+//@   ensures [never-fails-the-write] result == nil
+
+// The body that runs inside the single-flight barrier of doTake: a cache failure other than a miss is returned
+// and the DB is not reached; a placeholder means not-found without reaching the DB; a DB not-found is remembered;
+// a DB row is cached.
+//@ func (node).doTake$1
+//@   prop C06
+//@   opaque doGetCache, setCacheWithNotFound, Error, IncrDbFails, Marshal
+//@   let e = ret(doGetCache)
+//@   ensures [cache-hit] e == nil ==> calls(query) == 0 && calls(cacheVal) == 0
+//@   ensures [placeholder-is-not-found] e != nil && e == errPlaceholder ==> calls(query) == 0 && result1 == n.errNotFound && result0 == nil
+//@   ensures [cache-failure-passed-through] e != nil && e != errPlaceholder && e != n.errNotFound ==> calls(query) == 0 && result1 == e && result0 == nil
+//@   ensures [miss-queries-db-once] e != nil && e != errPlaceholder && e == n.errNotFound ==> calls(query, val) == 1
+//@   ensures [db-not-found-remembered] calls(query) == 1 && ret(query) == n.errNotFound ==> calls(n.setCacheWithNotFound) == 1 && arg(setCacheWithNotFound, 2) == key && result1 == n.errNotFound && calls(cacheVal) == 0
+//@   ensures [db-error-not-cached] calls(query) == 1 && ret(query) != nil && ret(query) != n.errNotFound ==> result1 == ret(query) && calls(cacheVal) == 0 && calls(setCacheWithNotFound) == 0
+//@   ensures [db-row-cached] calls(query) == 1 && ret(query) == nil ==> calls(cacheVal, val) == 1 && before(query, cacheVal)
